@@ -23,7 +23,11 @@ PATTERNS = {"int 4 / pop": "int 4\npop", "int 4": "int 4", "int 1 / return": "in
             "int 4 / pop / int 1 / return": "int 4\npop\nint 1\nreturn",
             # every line of the pattern is an instruction of the pattern: the version line and labels too
             "#pragma version 6 / start:": "#pragma version 6\nstart:", "#pragma version 6": "#pragma version 6", "#pragma version 5": "#pragma version 5",
-            "start: / int 4": "start:\nint 4"}
+            "start: / int 4": "start:\nint 4",
+            # a pattern that runs past the end of straight-line code (after return / past a branch) matches nowhere
+            "int 1 / return / int 9": "int 1\nreturn\nint 9", "pop / int 1 / return / pop": "pop\nint 1\nreturn\npop",
+            # blank lines inside the pattern are not instructions
+            "int 4 / (blank) / pop": "int 4\n\npop"}
 
 
 def reference(ctx, teal, label, pattern_lines):
@@ -103,7 +107,7 @@ def rule_regex(ctx, rep):
                     continue
                 finally:
                     w.stdout = None
-                want_m, want_c = reference(ctx, teal, lbl, pat.splitlines())
+                want_m, want_c = reference(ctx, teal, lbl, [l for l in pat.splitlines() if l.strip()])
                 n += 1
                 rep.check(got_m == want_m, rule, f"matches: {pname} / {lbl} => {patname}", where, got_m, want_m,
                           why="reported matches differ from the reachable straight-line occurrences of the pattern",
@@ -116,4 +120,11 @@ def rule_regex(ctx, rep):
     r = w.call(match, teal, w.call(parse_rx, "nolabel =>\nint 4\n"))
     w.stdout = None
     rep.check(isinstance(r, tuple) and list(r[0]) == [] and len(r[1]) == 0, rule, "unknown label gives no match", where, repr(r), "([], set())")
+    # text without '=>' is rejected with the tool's own error
+    try:
+        w.call(parse_rx, "int 4\npop\n")
+        got = "accepted"
+    except PyRaise as e:
+        got = f"rejected ({e.exc})"
+    rep.check(got == "rejected (ValueError)", rule, "pattern text without '=>' is rejected", where, got, "rejected (ValueError)")
     rep.count("regex evaluations", n)
